@@ -4,6 +4,8 @@ package main
 func genC07Rest(g *Gen) error {
 	const (
 		encTime = "lib/encoding/timestamp.go"
+		encBool = "lib/encoding/bool.go"
+		bits    = "lib/util/lifted/go-bitstream/bitstream.go"
 	)
 	if err := g.srcDef(encTime, "scale", "src_scale"); err != nil {
 		return err
@@ -21,6 +23,11 @@ func genC07Rest(g *Gen) error {
 		{encTime, "Time.simple8bDecoding", "fp_timeSimple8bDecoding"},
 		{encTime, "Time.snappyDecoding", "fp_timeSnappyDecoding"},
 		{encTime, "Time.unpackUncompressedData", "fp_timeUnpackUncompressedData"},
+		{encBool, "Boolean.Encoding", "fp_boolEncoding"},
+		{encBool, "Boolean.Decoding", "fp_boolDecoding"},
+		{bits, "BitWriter.WriteBit", "fp_bitWriteBit"},
+		{bits, "BitWriter.Flush", "fp_bitFlush"},
+		{bits, "BitReader.ReadBit", "fp_bitReadBit"},
 	} {
 		if err := g.fpDef(f[0], f[1], f[2]); err != nil {
 			return err
